@@ -49,7 +49,7 @@ ALL_KEEPS = '{"TT", "FF", "TF", "FT"}'
 FWD_DEFAULT = dict(MaxW=2, Keeps='{"TT"}', AllowFail='TRUE',
                    AllowReset='TRUE', AllowCut='TRUE', AllowLsn='TRUE',
                    FixLost='FALSE', FixCross='FALSE', Win=0,
-                   AdjustOnlyOpen='FALSE', EarlyBias='FALSE',
+                   AdjustOnlyOpen='FALSE', FlowBias='FALSE', EarlyBias='FALSE',
                    DropEarly='FALSE',
                    NoEofRelay='FALSE')
 SOCKS_DEFAULT = dict(MaxIn=30, MaxName=255, Runs='{254, 255, 256, 300}',
@@ -485,14 +485,16 @@ def main(ctx):
     wsims = [
         Job('sim window 2', 'Forward',
             dict(asis, Win=2, MaxW=4, Keeps=ALL_KEEPS, AllowCut='FALSE',
-                 AllowLsn='FALSE'), simulate=n // 2, depth=34, view=False),
+                 AllowLsn='FALSE', FlowBias='TRUE'),
+            simulate=n // 2, depth=34, view=False),
         Job('sim window 3 flow', 'Forward',
             dict(asis, Win=3, MaxW=5, Keeps=ALL_KEEPS, AllowFail='FALSE',
-                 AllowReset='FALSE', AllowCut='FALSE', AllowLsn='FALSE'),
+                 AllowReset='FALSE', AllowCut='FALSE', AllowLsn='FALSE',
+                 FlowBias='TRUE'),
             simulate=n, depth=44, view=False),
         Job('sim window 1', 'Forward',
             dict(asis, Win=1, MaxW=3, Keeps='{"TT"}', AllowFail='FALSE',
-                 AllowCut='FALSE', AllowLsn='FALSE'),
+                 AllowCut='FALSE', AllowLsn='FALSE', FlowBias='TRUE'),
             simulate=n // 2, depth=34, view=False)]
     nl = 40 if quick else 400
     lsims = [
